@@ -378,8 +378,22 @@ Definition obs (o : outcome) : list N :=
   | None => cls :: 0%N :: 0%N :: tp :: N.of_nat (length hooks) :: hooks
   end.
 
-Definition c12_case (c : (bool * N) * list (step * action) * plan * (bytes * N)) : list N :=
+(* bytes relative to two reference strings (keeps the case files small; injective for fixed old/ref) *)
+Definition compress (old ref b : bytes) : list N :=
+  if str_eqb b old then [0%N] else if str_eqb b ref then [1%N] else 2%N :: b.
+
+Definition obs_c (old ref : bytes) (o : outcome) : list N :=
+  let s := final_state o in
+  let cls := match o with Exited c _ => c | Killed _ => 9%N end in
+  let hooks := List.map (fun x => fst (step_code x)) (List.filter is_hook (List.rev (s_trace s))) in
+  let tp := match fs_temp (s_fs s) with Some _ => 1%N | None => 0%N end in
+  match fs_target (s_fs s) with
+  | Some f => cls :: 1%N :: f_mode f :: tp :: N.of_nat (length hooks) :: hooks ++ compress old ref (f_bytes f)
+  | None => cls :: 0%N :: 0%N :: tp :: N.of_nat (length hooks) :: hooks
+  end.
+
+Definition c12_case (c : (bool * N) * list (step * action) * plan * (bytes * N) * bytes) : list N :=
   match c with
-  | (cross, fm, flt, pl, (oldb, mode)) =>
-      obs (run (mkCfg cross (fm_of_N fm)) (sched_of flt) pl (mkFile oldb mode))
+  | (cross, fm, flt, pl, (oldb, mode), ref) =>
+      obs_c oldb ref (run (mkCfg cross (fm_of_N fm)) (sched_of flt) pl (mkFile oldb mode))
   end.
